@@ -232,13 +232,34 @@ func errClass(err error) string {
 var opNames = []string{"ExecutionAllowed/hook-adds-key", "ExecutionAllowed/hook-fresh-args", "ExecutionAllowed", "ExecutionAllowedWithArgsHook", "ExecutionAllowed/alt-args", "ExecutionAllowed/alt-args", "ExecutionAllowed/incomplete-loader", "dlg.Policy.Match/alt-data", "inv.ToSealed", "inv.ToDagCbor", "inv.ToDagJson", "inv.ToSealedWriter",
 	"inv.accessors", "args.Iter", "args.String", "args.ToIPLD", "args.Equals", "args.GetNode", "args.WriteableClone",
 	"meta.Iter", "meta.String", "meta.Get", "meta.GetEncrypted", "meta.GetEncrypted", "meta.GetBytes", "dlg.Meta.GetEncrypted", "inv.IsValid",
-	"dlg.ToSealed", "dlg.ToDagJson", "dlg.accessors", "dlg.Policy.String", "dlg.Policy.Match", "dlg.Meta.String", "dlg.IsValid"}
+	"dlg.ToSealed", "dlg.ToDagJson", "dlg.accessors", "dlg.Policy.String", "dlg.Policy.Match", "dlg.Meta.String", "dlg.IsValid", "dlg.IsValidAt/what-if", "dlg.IsValidAt/what-if", "inv.IsValidAt/what-if"}
+
+// whatIfInstants: instants a caller may ask about that are NOT now (planning, auditing, pruning): the answers are
+// facts about the token, asking changes nothing - in particular not what the token answers about other instants
+func whatIfInstants() []time.Time {
+	now := time.Now()
+	return []time.Time{time.Unix(0, 0), time.Unix(-62135596800, 0), now.Add(-200 * 365 * 24 * time.Hour), now.Add(-5400 * time.Second), now, now.Add(5400 * time.Second),
+		now.Add(48 * time.Hour), now.Add(200 * 365 * 24 * time.Hour), time.Unix(1<<40, 0), {}}
+}
+
+func whatIf(f func(time.Time) bool) string {
+	out := ""
+	for _, ti := range whatIfInstants() {
+		if f(ti) {
+			out += "1"
+		} else {
+			out += "0"
+		}
+	}
+	return out
+}
 
 // aloneComparable: operations whose result does not depend on the wall clock or on signatures, so that the
 // result inside a history can be compared with the result of the same operation run alone on a fresh world.
 var aloneComparable = map[string]bool{"ExecutionAllowed/hook-adds-key": true, "ExecutionAllowed/hook-fresh-args": true, "ExecutionAllowed": true, "ExecutionAllowedWithArgsHook": true, "ExecutionAllowed/alt-args": true,
 	"ExecutionAllowed/incomplete-loader": true, "dlg.Policy.Match/alt-data": true, "dlg.Policy.Match": true, "dlg.Policy.String": true,
-	"args.Iter": true, "args.String": true, "args.ToIPLD": true, "args.GetNode": true, "args.WriteableClone": true, "meta.Iter": true, "meta.String": true, "meta.Get": true}
+	"args.Iter": true, "args.String": true, "args.ToIPLD": true, "args.GetNode": true, "args.WriteableClone": true, "meta.Iter": true, "meta.String": true, "meta.Get": true,
+	"dlg.IsValidAt/what-if": true, "inv.IsValidAt/what-if": true, "dlg.IsValid": true, "inv.IsValid": true}
 
 var keyTouching = map[string]bool{"ExecutionAllowed/hook-adds-key": true, "ExecutionAllowed/hook-fresh-args": true, "ExecutionAllowed/alt-args": true, "ExecutionAllowed/incomplete-loader": true, "ExecutionAllowed": true, "ExecutionAllowedWithArgsHook": true, "inv.ToSealed": true, "inv.ToDagCbor": true, "inv.ToDagJson": true,
 	"inv.ToSealedWriter": true, "args.Iter": true, "args.String": true, "args.ToIPLD": true, "args.Equals": true, "args.WriteableClone": true, "meta.Iter": true, "meta.String": true}
@@ -419,6 +440,8 @@ func (w *world) apply(op string, which int, k *keeper) (res string) {
 		return fmt.Sprint(s, e1, e2, e3)
 	case "inv.IsValid":
 		return fmt.Sprint(w.inv.IsValidNow(), w.inv.IsValidAt(time.Unix(0, 0)))
+	case "inv.IsValidAt/what-if":
+		return whatIf(w.inv.IsValidAt)
 	}
 	if d == nil {
 		return "no-delegation"
@@ -453,6 +476,8 @@ func (w *world) apply(op string, which int, k *keeper) (res string) {
 		return sortedLines(d.Meta().String())
 	case "dlg.IsValid":
 		return fmt.Sprint(d.IsValidNow(), d.IsValidAt(time.Unix(0, 0)))
+	case "dlg.IsValidAt/what-if":
+		return whatIf(d.IsValidAt)
 	}
 	return "unknown-op"
 }
@@ -525,7 +550,7 @@ func richValue(t *rapid.T, k string, n int) val.V {
 }
 
 func drawChain(t *rapid.T) (chain.Case, []val.KV) {
-	cs := chain.DrawConforming(t, chain.GenOpt{MaxLen: 3, Commands: true, Policies: true, Args: true, Irrelevant: true})
+	cs := chain.DrawConforming(t, chain.GenOpt{MaxLen: 3, Commands: true, Policies: true, Args: true, Irrelevant: true, Times: rapid.Bool().Draw(t, "times")})
 	if rapid.IntRange(0, 3).Draw(t, "deviate") == 1 {
 		// a chain that must be refused, in any of the ways a chain can be wrong (proofs in another order, a link
 		// about someone else, a missing proof, ...): a refusal leaves the tokens exactly as an approval does
